@@ -17,6 +17,8 @@ struct FaultSeed {
 	std::string name;
 	std::vector<uint8_t> bytes;
 	std::vector<FField> fields;
+	bool withPrefixes = true;                 // enumerate every proper prefix (checks that handle prefixes themselves switch this off)
+	std::size_t subFrom = 0, subTo = ~std::size_t(0);   // byte substitutions only inside [subFrom, subTo)
 };
 
 struct Mutant { std::vector<uint8_t> bytes; std::string desc; };
@@ -60,12 +62,12 @@ public:
 	{
 		std::size_t n = seed.bytes.size();
 		// prefixes
-		for (std::size_t k = 0; k < n; ++k) items.push_back({ 0, k, 0, 0, 0 });
+		if (seed.withPrefixes) for (std::size_t k = 0; k < n; ++k) items.push_back({ 0, k, 0, 0, 0 });
 		// field x value
 		for (std::size_t fi = 0; fi < seed.fields.size(); ++fi)
 			for (uint64_t v : fieldValues(seed.fields[fi], fieldGet(seed.bytes, seed.fields[fi]), n, false)) items.push_back({ 1, fi, v, 0, 0 });
 		// byte substitutions
-		for (std::size_t k = 0; k < n; ++k) for (int sub = 0; sub < 4; ++sub) items.push_back({ 2, k, uint64_t(sub), 0, 0 });
+		for (std::size_t k = seed.subFrom; k < n && k < seed.subTo; ++k) for (int sub = 0; sub < 4; ++sub) items.push_back({ 2, k, uint64_t(sub), 0, 0 });
 		level1Count = items.size();
 		if (level2) {
 			for (std::size_t a = 0; a < seed.fields.size(); ++a) for (std::size_t b = a + 1; b < seed.fields.size(); ++b) {
